@@ -9,7 +9,10 @@ RULE = (
     "the target, user-edited files) with every target object cached and force on x the 3x3 matrix existing "
     "kind (copy/hardlink/symlink, uniform or mixed) x configured link type (single types and fallback lists) "
     "x relink on/off x LocalHashFileDB/HashFileDB x with/without State; every case is followed by a second "
-    "call (plain or with the same flags) on the result; plus the unforced / missing-object streams of C05 for "
+    "call (plain or with the same flags) on the result; plus two-call histories in one process on one workspace "
+    "path (forced checkout of a nested target, the user deletes a sub-directory tree / everything / one file, forced "
+    "checkout of the same or another nested target through the same or a fresh odb object), each call judged by "
+    "the convergence oracle; plus the unforced / missing-object streams of C05 for "
     "cache immutability and the link record.  Non-trivial: the first call changed the workspace or raised."
 )
 ASSUMPTIONS = [
@@ -23,6 +26,16 @@ ASSUMPTIONS = [
 # design finding 7.7 (repaired by a8647e5): a symlink whose cache object has another hard link must be
 # relinked under type hardlink; and the plain 3x3 diagonal
 CORPUS = [
+    # one process, one workspace path: nested target, sub-directories removed by the user, forced checkout again
+    {"stream": "rehistory", "cls": "local", "types": ["hardlink"], "state": False, "relink": False, "second": "plain",
+     "force": True, "prompt": "none", "prior": None, "target": {"a": "A", "sub/c": "B", "sub/deep/d": "C"},
+     "cache": ["A", "B", "C"],
+     "call2": {"drop": [], "target": {"a": "A", "sub/c": "B", "sub/deep/d": "C"}, "force": True, "prompt": "none",
+               "relink": False, "fresh_odb": True, "user": "rm_subdirs"}},
+    {"stream": "rehistory", "cls": "base", "types": ["symlink"], "state": True, "relink": True, "second": "plain",
+     "force": True, "prompt": "none", "prior": None, "target": {"sub/c": "B", "sub/e2": "E"}, "cache": ["A", "B", "E"],
+     "call2": {"drop": [], "target": {"sub/c": "A", "sub/deep/d": "B"}, "force": True, "prompt": "none",
+               "relink": False, "fresh_odb": False, "user": "rm_all"}},
     {"stream": "converge", "cls": "local", "types": ["hardlink"], "state": True, "relink": True, "second": "plain",
      "force": True, "prompt": "none", "prior": {"a": ["A", "symlink"], "b.txt": ["A", "hardlink"]},
      "target": {"a": "A", "b.txt": "A"}, "cache": ["A"]},
@@ -37,7 +50,7 @@ CORPUS = [
 
 def run(ctx):
     C.check_deciders(ctx)
-    streams = [("converge", ctx.n(90, 800)), ("guard", ctx.n(20, 150)), ("missing", ctx.n(10, 100))]
+    streams = [("converge", ctx.n(70, 650)), ("rehistory", ctx.n(30, 250)), ("guard", ctx.n(15, 120)), ("missing", ctx.n(8, 80))]
     items = C.run_stream(ctx, streams, "C10")
     for case in CORPUS:                                     # regression inputs, always run
         case = dict(case, contents=dict(C.CONTENT_POOL))
